@@ -35,7 +35,7 @@ def required(tier):
     return ["inserted:first", "inserted:last", "inserted:between_N_lines_of_one_tick", "section:sync", "section:events", "section:instrument",
             "family:blank", "family:foreign", "family:unsupported_index", "family:header_like", "claimed_by:NoteEvent", "claimed_by:StarPowerEvent",
             "claimed_by:TrackEvent", "claimed_by:BPMEvent", "claimed_by:TimeSignatureEvent", "claimed_by:AnchorEvent", "claimed_by:TextEvent",
-            "claimed_by:SectionEvent", "claimed_by:LyricEvent", "moved", "deleted", "disjointness_probe", "inserted:copy_of_a_line_valid_elsewhere_in_the_chart"]
+            "claimed_by:SectionEvent", "claimed_by:LyricEvent", "moved", "deleted", "disjointness_probe", "inserted:copy_of_a_line_valid_elsewhere_in_the_chart", "inserted:more_than_100_in_one_section"]
 
 
 def shards(tier, seed):
@@ -143,7 +143,9 @@ def mutate(rng, rec, sections, mode):
         body = list(body)
         if k is not None:
             pool = POOLS[k]
-            cnt = rng.choice([0, 1, 2, 5, 15, 50])
+            cnt = rng.choice([0, 1, 2, 5, 15, 50]) if rng.random() < 0.95 else rng.choice([101, 130, 260, 1100])
+            if cnt > 100:
+                rec.cls("inserted:more_than_100_in_one_section")
             if cnt:
                 rec.cls(f"section:{k}")
             # besides the fixed pool: exact copies of lines that are VALID in another section of this very chart
